@@ -80,19 +80,19 @@ let handle toks =
     OHashtbl.reset arrays; refs := []; feats := [];
     the_tag := { t_pos = []; t_ext = []; t_units = []; t_refs = []; t_feats = [] };
     the_mtag := { m_pos = { n_shape = []; n_data = [] }; m_ext = None; m_units = []; m_refs = []; m_feats = [] };
-    "OK"
+    "OK done"
   | "arr" :: aid :: rank :: rest ->
     let rank = oint_of_string rank in
     let shape = OLst.map z_of_string (take rank rest) in
     let dims = parse_dims rank (drop rank rest) in
     OHashtbl.replace arrays aid { a_shape = shape; a_dims = dims };
-    "OK"
+    "OK done"
   | "tag" :: rest ->
     let (pos, rest) = counted dec_dbl rest in
     let (ext, rest) = counted dec_dbl rest in
     let (units, _) = counted unit_str rest in
     the_tag := { t_pos = pos; t_ext = ext; t_units = units; t_refs = !refs; t_feats = !feats };
-    "OK"
+    "OK done"
   | "mtag" :: rank :: rest ->
     let rank = oint_of_string rank in
     let shape = OLst.map z_of_string (take rank rest) in
@@ -102,16 +102,16 @@ let handle toks =
     the_mtag := { m_pos = { n_shape = shape; n_data = pos };
                   m_ext = (if ext = [] && pos <> [] then None else if ext = [] then None else Some { n_shape = shape; n_data = ext });
                   m_units = units; m_refs = !refs; m_feats = !feats };
-    "OK"
+    "OK done"
   | ["ref"; aid] ->
     refs := !refs @ [arr aid];
     the_tag := { !the_tag with t_refs = !refs }; the_mtag := { !the_mtag with m_refs = !refs };
-    "OK"
+    "OK done"
   | ["feat"; aid; lt] ->
     let l = (match lt with "tagged" -> LTagged | "untagged" -> LUntagged | "indexed" -> LIndexed | _ -> failwith "bad link") in
     feats := !feats @ [{ f_link = l; f_data = arr aid }];
     the_tag := { !the_tag with t_feats = !feats }; the_mtag := { !the_mtag with m_feats = !feats };
-    "OK"
+    "OK done"
   (* ---- Tag ---- *)
   | ["offcnt"; aid; m] ->
     let a = arr aid and m = mode_of `Offcnt m in
